@@ -103,6 +103,9 @@ func blockingSites(fn *ssa.Function) []BSite {
 // cancellation context.
 type CtxJudge struct {
 	P       *Prog
+	// NoDeadline: a context derived with a deadline or timeout is not
+	// accepted: it ends for a reason other than the shutdown of the worker
+	NoDeadline bool
 	fieldOK map[*types.Var]*bool
 	paramOK map[*ssa.Parameter]*string // nil while in progress; "" = ok; else reason
 }
@@ -150,6 +153,9 @@ func (j *CtxJudge) okOrg(r *Resolver, o *Org, depth int) (bool, string) {
 					return false, "not the context result of errgroup.WithContext"
 				}
 			case "context.WithCancel", "context.WithTimeout", "context.WithDeadline", "context.WithValue", "context.WithCancelCause":
+				if j.NoDeadline && (a.Name == "context.WithTimeout" || a.Name == "context.WithDeadline") {
+					return false, "the context is derived with " + a.Name + " at " + j.P.InstrPos(c) + ": it is done when the deadline passes, not only when the worker is shut down"
+				}
 				if ok, why := j.okOrg(r, r.Of(c.Call.Args[0]), depth+1); !ok {
 					return false, why
 				}
